@@ -20,6 +20,7 @@ EXPLANATION = (
     "pre-checked, unknown keys exit with an error, and parse_time's suffix chain has no shadowed suffix and "
     "the right multipliers. Values of generated option grammars are not enumerated."
     ' Also decided: every with_overrides(**...) call site forwards the parsed options unfiltered or filtered by `is not None` only (an explicit falsy value must win).'
+    " Round 4: inside run_tests options are read from the test's own configuration (R18.9); the validating and extracting patterns of --array-lengths agree on names; a pattern applied by parse_time is anchored at the end."
 )
 ASSUMPTIONS = ["argparse stores parsed values under the dataclass field names", "toml.loads is faithful"]
 
@@ -313,6 +314,24 @@ def r18_6_rejection(repo: Repo, rep: Report):
     rep.check("R18.6", ok, m, pdict, "toml: single [global] section enforced; structured values go through the action's parse", "toml values bypass validation")
     # parse_time
     mu, pt = repo.fn("utils.parse_time")
+    # whatever shape the parser has: a pattern applied with match()/search() must be anchored at the end, otherwise
+    # trailing garbage ("10sec", "1h30m", "2.5e-05s" read as 2.5) is accepted instead of rejected
+    for c in body_walk(pt):
+        if not (isinstance(c, ast.Call) and isinstance(c.func, ast.Attribute) and c.func.attr in ("match", "search")):
+            continue
+        recv = c.func.value
+        pat = None
+        if isinstance(recv, ast.Name) and recv.id == "re" and c.args:
+            pat = fold_in(repo, "utils", c.args[0])
+        elif isinstance(recv, ast.Call) and src(recv.func) == "re.compile" and recv.args:
+            pat = fold_in(repo, "utils", recv.args[0])
+        elif isinstance(recv, ast.Name):
+            vals = [st.value for st in mu.tree.body if isinstance(st, ast.Assign) and len(st.targets) == 1 and src(st.targets[0]) == recv.id]
+            if len(vals) == 1 and isinstance(vals[0], ast.Call) and src(vals[0].func) == "re.compile" and vals[0].args:
+                pat = fold_in(repo, "utils", vals[0].args[0])
+        if isinstance(pat, str):
+            anchored = pat.endswith("$") or pat.endswith("\\Z") or pat.endswith("$)")
+            rep.check("R18.6", anchored, mu, c, f"parse_time applies {pat!r} with .{c.func.attr}()", "the pattern is not anchored at the end: a malformed value with a valid prefix is accepted (and an exponent-notation repr no longer round-trips)")
     chains = [i for i in body_walk(pt) if isinstance(i, ast.If) and "endswith" in src(i.test) and not (isinstance(mu.parents[i], ast.If) and i in mu.parents[i].orelse)]
     if len(chains) != 1:
         raise AnalysisError("parse_time: suffix chain not found")
